@@ -134,3 +134,37 @@ OVERLAP_INV = dict(
 
 contract(ENG, props=['C02', 'C04', 'C05', 'C14'], name='engine', blocks_only=True,
          blocks={'place': PLACE, 'overlap': OVERLAP}, loops={'@for lobj in compilable_line_obs#1|3': OVERLAP_INV})
+
+
+# ---- the glue between loading and the two passes: which lines take part --------------------------------------------------
+@spec(rec=True, sig=['arr[LineObject]', 'arr[bool]', 'int', 'int'])
+def ncomp(lines, COMP, n):
+    """how many of the first n lines are compilable: selected by every enclosing conditional block -- or a conditional
+    directive itself (ConditionLine.compilable is always True; such a line has no bytes and no address effect)"""
+    if n <= 0:
+        return 0
+    return ncomp(lines, COMP, n - 1) + ite(isa(lines[n - 1], 'ConditionLine') or COMP[lines[n - 1]], 1, 0)
+
+
+NCOMP = "ncomp(elems(line_obs), fld('LineObject._compilable'), {n})"
+contract(ENG, name='engine-lines', props=['C03', 'C04', 'C08', 'C14'], blocks_only=True,
+         locals={'line_obs': 'list[LineObject]', LST: 'list[LineObject]', 'predefined_line_obs': 'list[LineObject]'},
+         blocks={
+             # the lines that are assembled are the compilable ones: none that an unselected branch holds, none dropped
+             'collect': dict(where='from:compilable_line_obs = [lobj for lobj in line_obs:1', locals={},
+                             requires=['allocated(line_obs)'],
+                             ensures=[f'forall(lambda j: implies(0 <= j and j < {N}, isa({Lj}, "ConditionLine") or {Lj}._compilable))',
+                                      f'{N} == ' + NCOMP.format(n='len(line_obs)')],
+                             modifies=[], allocates=True),
+             # the data blocks predefined by the ISA definition join them (they are memory content like any other line)
+             'merge': dict(where='from:compilable_line_obs.extend(predefined_line_obs):1', locals={},
+                           requires=[f'{LST} is not predefined_line_obs'],
+                           ensures=[f'{N} == old({N}) + len(predefined_line_obs)',
+                                    f'forall(lambda j: implies(0 <= j and j < old({N}), {Lj} is old(elems({LST}))[j]))',
+                                    f'forall(lambda j: implies(0 <= j and j < len(predefined_line_obs),'
+                                    f' elems({LST})[old({N}) + j] is elems(predefined_line_obs)[j]))'],
+                           modifies=[f'{LST}[*]'])},
+         loops={'comp0': dict(idx='m', allocates=True, modifies=[f'{LST}[*]'],
+                              inv=[f'forall(lambda j: implies(0 <= j and j < {N}, isa({Lj}, "ConditionLine") or {Lj}._compilable))',
+                                   f'{N} == ' + NCOMP.format(n='m'), 'm <= len(line_obs)', f'fresh({LST})',
+                                   f'{LST} is not line_obs', 'line_obs is entry(line_obs)'])})
